@@ -34,7 +34,7 @@ def main():
     a = ap.parse_args()
     prop, k = a.prop.upper(), a.k
     src = '/tmp/mut_out/%s' % prop
-    wt = '/tmp/mut/%s' % prop
+    wt = os.environ.get('SEED_WT') or '/tmp/mut/%s' % prop
     patch = os.path.join(src, 'patch%s.diff' % k)
     demo = os.path.join(src, 'demo%s.py' % k)
     meta = {'property': prop, 'seed': k, 'ran': []}
